@@ -22,6 +22,7 @@ type c18Cfg struct {
 	Robot       string
 	Admin       c18Wallet
 	HasToken    bool
+	EmptyTok    bool // the token section is present and holds nothing at all ("token":{})
 	Issuer      c18Wallet
 	FeeSetter   c18Wallet
 	FeeASetter  c18Wallet
@@ -41,7 +42,9 @@ func optStr(w c18Wallet) string {
 
 func (v c18Cfg) term() string {
 	tok := "None"
-	if v.HasToken {
+	if v.HasToken && v.EmptyTok {
+		tok = "(Some (TConf None None None None))"
+	} else if v.HasToken {
 		tok = fmt.Sprintf("(Some (TConf %s %s %s %s))", optStr(v.Issuer), optStr(v.FeeSetter), optStr(v.FeeASetter), optStr(v.Redeemer))
 	}
 	return fmt.Sprintf("(CConf %s %s %s %s %s %s)", coqStr(v.Symbol), coqStr(v.Robot), optStr(v.Admin), tok, coqBool(v.NoSwaps), coqBool(v.NoMulti))
@@ -65,7 +68,9 @@ func (v c18Cfg) json() string {
 		}
 		m["contract"] = c
 	}
-	if v.HasToken {
+	if v.HasToken && v.EmptyTok {
+		m["token"] = map[string]interface{}{}
+	} else if v.HasToken {
 		t := map[string]interface{}{"name": "n", "decimals": 8}
 		for k, w := range map[string]c18Wallet{"issuer": v.Issuer, "feeSetter": v.FeeSetter, "feeAddressSetter": v.FeeASetter, "redeemer": v.Redeemer} {
 			if w.Present {
@@ -91,7 +96,7 @@ func (v c18Cfg) json() string {
 
 func genC18(c *Ctx) error {
 	c.ShardSize = 60
-	c.Notes["rule"] = "sequences of 1-5 initialisations on one chaincode (a token, a contract on the base contract alone, or a token with a chaincode-specific ext_config section and validator of its own, which then gets a valid / absent / invalid section): JSON configurations rendered from a structured value by field-wise mutation of a valid one (symbol / robot key / admin / issuer / setters missing, empty or ill-formatted, token section absent, unknown field, ill-typed value, truncated JSON), legacy positional argument lists for every known channel name and unknown ones (right / wrong counts, empty arguments), each sent with an admin-OU, ordinary or malformed creator, or one whose PEM data holds several certificates (the first is the caller's). After every step: Init verdict, whether the stored bytes are what they have to be (untouched after a rejection, those of the request after an acceptance), and probes of the configuration in force (is an invocation refused for lack of configuration, the symbol in the metadata query, the wallets of the token section in force, which robot key opens batchExecute, whether a swap method is refused as disabled when called directly and as a task). Non-trivial: a sequence with at least one accepted and one rejected initialisation."
+	c.Notes["rule"] = "sequences of 1-5 initialisations on one chaincode (a token, a contract on the base contract alone, or a token with a chaincode-specific ext_config section and validator of its own, which then gets a valid / absent / invalid section): JSON configurations rendered from a structured value by field-wise mutation of a valid one (symbol / robot key / admin / issuer / setters missing, empty or ill-formatted, token section absent or present but empty, unknown field, ill-typed value, truncated JSON), legacy positional argument lists for every known channel name and unknown ones (right / wrong counts, empty arguments), each sent with an admin-OU, ordinary or malformed creator, or one whose PEM data holds several certificates (the first is the caller's). After every step: Init verdict, whether the stored bytes are what they have to be (untouched after a rejection, those of the request after an acceptance), and probes of the configuration in force (is an invocation refused for lack of configuration, the symbol in the metadata query, the wallets of the token section in force, which robot key opens batchExecute, whether a swap method is refused as disabled when called directly and as a task). Non-trivial: a sequence with at least one accepted and one rejected initialisation."
 	rng := c.Rng
 	symbols := []string{"TT", "T", "tt", "T1", "TT-1", "TT-", "1T", "T_T", "", "TT-A-B", "AB9", "A1-9Z", "TTé"}
 	w0 := NewWorld()
@@ -206,6 +211,12 @@ func genC18(c *Ctx) error {
 				v.NoSwaps, v.NoMulti = rng.Intn(3) == 0, rng.Intn(3) == 0
 				if rng.Intn(5) == 0 {
 					v.HasToken = false // the token section is optional
+				}
+				if rng.Intn(12) == 0 {
+					// ... but one that is there needs its issuer, also when it holds nothing else
+					v.HasToken, v.EmptyTok = true, true
+					v.Issuer, v.FeeSetter, v.FeeASetter, v.Redeemer = c18Wallet{}, c18Wallet{}, c18Wallet{}, c18Wallet{}
+					c.Count("token_section_present_but_empty")
 				}
 				if rng.Intn(4) == 0 {
 					v.FeeSetter = c18Wallet{true, addrs[rng.Intn(2)]}
